@@ -28,7 +28,7 @@ def oracle(chk, good):
         for g in o['geos']:
             for e, key in ((0, 'p1'), (1, 'p2')):
                 if not gflags[g['n']][e]:
-                    ends.append((g['n'], e, given[g['n']][e] if g['n'] in given else [float.fromhex(v) for v in g[key]]))
+                    ends.append((g['n'], e, given[g['n']][e] if g['n'] in given else [float.fromhex(v) for v in g['s' + key]]))
         par = list(range(len(ends)))
         def find(x):
             while par[x] != x:
@@ -114,6 +114,14 @@ def probes():
         out.append(dict(id=10 ** 6 + len(out), seed=0, must_accept=True,
                         spec=dict(f=30.0, wires=[gen.wire(4, [-1.0, 0.0, 0.5], [0.0, 0.0, za], 0.0005), gen.wire(4, [0.0, 0.0, zb], [1.0, 0.0, 0.5], 0.0005)],
                                   media=None, family='probe-free-space-near-z0', tagmode='none', sources=[], loads=[])))
+    # a transformation of ONE tagged wire moves its end away from a junction (or onto another one): junctions are decided on the
+    # transformed conductors
+    for v_, fam in (([0.0, 0.6, 0.0], 'probe-tagged-move-away'), ([0.0, 0.0, 0.0], 'probe-tagged-move-zero'), ([1.5, 0.0, 0.0], 'probe-tagged-move-onto')):
+        ws = [gen.wire(4, [0.0, 0.0, 0.5], [0.0, 0.0, 2.5], 0.001, tag=1), gen.wire(4, [0.0, 0.0, 2.5], [1.2, 0.0, 2.9], 0.001, tag=2),
+              gen.wire(4, [1.5, 0.0, 0.5], [1.5, 0.0, 2.5], 0.001, tag=3)]
+        out.append(dict(id=10 ** 6 + len(out), seed=0, must_accept=True,
+                        spec=dict(f=30.0, wires=ws, media=None, family=fam, tagmode='explicit', sources=[], loads=[],
+                                  transforms=[dict(op='translate', key=1.0, v=v_, tag=2)])))
     return out
 
 def run(tier, seed):
